@@ -420,6 +420,23 @@ pub fn relational_inputs(shard: usize, nshards: usize, f: &mut dyn FnMut(&[u8]))
             n += 1;
         }
     }
+    // the largest packet there is: exactly 65 536 words under the length field 0xffff (and one word less under 0xfffe),
+    // count 0 and 1, zero body (arithmetic done on the length field itself, `field + 1` in 16 bits, shows only here)
+    for (len, field) in [(262_144usize, 0xffffu16), (262_140, 0xfffe)] {
+        for &pt in &PTS_OF_INTEREST {
+            for count in [0u8, 1] {
+                if !mine() {
+                    continue;
+                }
+                let mut v = vec![0u8; len];
+                v[0] = 0x80 | count;
+                v[1] = pt;
+                v[2..4].copy_from_slice(&field.to_be_bytes());
+                f(&v);
+                n += 1;
+            }
+        }
+    }
     for len in [262_148usize, 262_152, 263_316, 525_460] {
         for &pt in &PTS_OF_INTEREST {
             for field in [0u16, 1, 6, 0x0123, 0xfffe, 0xffff, ((len / 4 - 1) & 0xffff) as u16] {
